@@ -128,6 +128,8 @@ pub struct SuspendSt {
     pub resolved_at: u64,
     /// stamp at which the resumer was used or dropped (0 = not yet)
     pub resumed_at: u64,
+    /// the suspend future was dropped without having been awaited to resolution
+    pub fut_dropped: bool,
 }
 
 #[derive(Clone, Debug, Default)]
@@ -432,6 +434,12 @@ impl World {
                     let sop = &i.ops[s.op];
                     if s.resolved_at != 0 && s.resumed_at == 0 && o.inv > sop.ret && sop.ret != 0 && kind != Kind::Suspend {
                         fail = Some(("C13", "ran-while-suspended", format!("operation #{} (invoked t={}) started on o{} while the queue is suspended by #{} (requested t={}, in force since t={})", op, o.inv, obj, s.op, sop.ret, s.resolved_at)));
+                        break;
+                    }
+                    // the suspend request is itself a place in the queue: while its future is alive and unresolved, either the
+                    // suspension job has not run yet (then nothing scheduled after it may run) or the queue is already suspended
+                    if s.resolved_at == 0 && s.resumed_at == 0 && !s.fut_dropped && o.inv > sop.ret && sop.ret != 0 && kind != Kind::Suspend && kind != Kind::PipeItem {
+                        fail = Some(("C13", "overtook-suspend-request", format!("operation #{} (invoked t={}) started on o{} although the suspension #{} requested before it (t={}) has not been resumed", op, o.inv, obj, s.op, sop.ret)));
                         break;
                     }
                 }
